@@ -480,8 +480,15 @@ impl<F: Write + Seek> Directory<F> {
     where
         W: FnOnce(&mut DirEntry),
     {
+        let old_entry = self.dir_entries[stream_id as usize].clone();
         func(&mut self.dir_entries[stream_id as usize]);
-        self.write_dir_entry(stream_id)
+        let result = self.write_dir_entry(stream_id);
+        if result.is_err() {
+            // The update did not make it into the file; do not let later
+            // operations (such as a retry) work from state the file lacks.
+            self.dir_entries[stream_id as usize] = old_entry;
+        }
+        result
     }
 
     /// Calls the given function with a mutable reference to the root directory
